@@ -186,7 +186,9 @@ def _stmts(accs, depth, max_stmts, calls=True, pure=True, carried=True, unit_wei
                 # the repeated unit sits in a conditional or a loop (its setup may be removed completely, leaving a launch that uses
                 # the outer state from inside a region) and a further, different unit of the same accelerator follows
                 if wrap == "for":
-                    out.append(["for", draw(_loop_hdr()), [u2], [], []])
+                    # (the loop body may end in an opaque call: the state yielded to the next iteration is then unknown)
+                    tail = [["call", False, draw(st.integers(0, 1))]] if calls and draw(st.booleans()) else []
+                    out.append(["for", draw(_loop_hdr()), [u2] + tail, [], []])
                 elif wrap == "then":
                     out.append(["if", ["p", draw(st.integers(0, 3))], [u2], []])
                 else:
